@@ -97,7 +97,7 @@ def prune_infeasible(path_hyps):
   return s.check() == z3.unsat
 
 
-def check_functions(repo, quals, thorough=False, all_backends=False, log=None):
+def check_functions(repo, quals, thorough=False, all_backends=False, log=None, only=None):
   """Generates and discharges; returns (function results, obligation results)."""
   fres = {}
   jobs = []
@@ -116,6 +116,8 @@ def check_functions(repo, quals, thorough=False, all_backends=False, log=None):
     fres[q] = r
     seen = {}
     for ob, pi in r.obligations:
+      if only and only not in ob.name:
+        continue
       text = solve.to_smt2(ob.hyps, ob.goal)
       d = solve.digest(text)
       k = (ob.name, d)
